@@ -157,8 +157,15 @@ PROPERTIES = {
                            "to_json/from_json contracts = induction hypothesis). bounded stand-ins: end-to-end through "
                            "json.dumps/loads, Not, nested random models, and the configurator classes (cc.Any/cc.Xor/"
                            "StingyConfigurator: defaults, default priorities, polyhedron)."},
-    "C17": {"rt": ["rt.config:c17_b64"], "level": "other", "assumptions": S_ALL + ["A-pickle"],
-            "explanation": "bounded stand-in only so far"},
+    "C17": {"harness_modules": ["contracts.c17"], "rt": ["rt.config:c17_b64"], "level": "other",
+            "assumptions": S_ALL + ["A-pickle: pickle.loads(pickle.dumps(x)) reproduces plain-__dict__ objects and ndarrays; gzip and base64 "
+                                    "are inverse pairs (standard library, not under contract)"],
+            "explanation": "deductive (input-free alignment obligations decided on the real source by ast): the list pickled by "
+                           "ge_polyhedron_config.to_b64 lists, in the positional order of __new__'s parameters, the array and every "
+                           "attribute the class chain attaches (variables, index, default_prio_vector), from_b64 splats it into the "
+                           "constructor; AtLeast.to_b64 / plog.from_b64 pass the object itself. Everything else is pickle's "
+                           "(assumed). bounded stand-in: structural equality and equal select() answers after the round trip for "
+                           "models, polyhedra (incl. wide integers) and configurators packed after they were queried."},
     "C18": {"harness_modules": ["contracts.c18"], "rt": ["rt.config:c18_add"], "level": "other", "assumptions": S_ALL,
             "explanation": "deductive: StingyConfigurator.add (real source, with All.__init__/AtLeast.__init__) on a configurator of any "
                            "width: refuses exactly the clashing ids, otherwise returns a StingyConfigurator with the same id whose "
